@@ -28,6 +28,9 @@ def sources(tier):
         ("fut+fut", (0.0, 0.0), POW2_QUOTES, 65536.0, 2, True),
         # fractional holdings (reached through weight rebalances): whole-lot truncation must apply to the imbalance
         ("spot1+fut", (0.0, 0.0), ledger.quotes_of(scale)[:3], deposit, 2, False, True),
+        # an account that is tiny relative to the size of one contract (deposit x 2^-26, one ES-like contract worth millions of
+        # times the account): economically meaningful imbalances are then far below 1e-7 contracts
+        ("etf+es", (0.0, 0.0), ledger.quotes_of(scale)[:3], deposit * 2.0 ** -26, 2, False, True, True),
     ]
     if tier == "thorough":
         out = [
@@ -39,8 +42,27 @@ def sources(tier):
             ("spot+spot", (0.0, 0.0), POW2_QUOTES, 131072.0, 3, True),
             ("spot1+fut", (0.0, 0.0), ledger.quotes_of(scale)[:3], deposit, 3, False, True),
             ("fut+fut", ledger.FEES[1], ledger.quotes_of(scale)[:3], deposit, 2, False, True),
+            ("etf+es", (0.0, 0.0), ledger.quotes_of(scale)[:3], deposit * 2.0 ** -26, 3, False, True, True),
+            ("spot1+fut", (0.0, 0.0), ledger.quotes_of(scale)[:3], deposit * 2.0 ** -26, 2, False, True, True),
         ]
     return out
+
+
+class ImplView:
+    """The account as the implementation itself reports it (holdings and NLV), offered through the ledger's interface.  Used for
+    the tiny-account source: there the broker snaps positions below its 1e-7-contract resolution to zero (documented in
+    Broker.transact), which the exact ledger does not model; the emission rule is judged on the holdings the account REPORTS."""
+
+    def __init__(self, sb):
+        self.b = unsnap(sb)
+        self.v = Fr(float(self.b.net_liquidation_value(False)))
+        self.h = {c: Fr(float(q)) for c, q in self.b.holdings_quantity.items()}
+
+    def qty(self, c):
+        return self.h.get(c, Fr(0))
+
+    def nlv(self, exchange, cs):
+        return self.v
 
 
 def _collect(src):
@@ -153,8 +175,11 @@ def _work(unit):
     cs = ledger.contracts_of(universe)
     reset_clock()
     out = {"evaluations": 0, "violations": [], "nontrivial": set(), "outcomes": set(), "boundary_cases": 0}
+    view = len(src) > 7 and src[7]
     for sb, ref, hist in chunk:
         b = unsnap(sb)
+        if view:
+            ref = ImplView(sb)
         nlv = ref.nlv(b.exchange, cs)
         if nlv is None or nlv <= 0:
             continue
@@ -172,7 +197,7 @@ def _work(unit):
                 if msgs:
                     case = {"universe": universe, "fee": list(fee), "quotes": [list(q) for q in quotes], "deposit": deposit,
                             "history": [list(o) for o in hist], "measure": measure, "alloc": list(alloc), "threshold": th,
-                            "fractional": fractional, "executed": executed, "exact_palette": exact_palette}
+                            "fractional": fractional, "executed": executed, "exact_palette": exact_palette, "impl_view": bool(view)}
                     out["violations"].append((case, "; ".join(msgs), (msgs[0].split(" ")[0], fractional, len(hist))))
     return out
 
@@ -329,6 +354,8 @@ def replay(case, **kw):
     b, ref, cs = ledger.initial(universe, fee, quotes, case["deposit"])
     for op in case["history"]:
         ref, _ = ledger.apply_op(b, ref, cs, tuple(op), quotes, fee)
+    if case.get("impl_view"):
+        ref = ImplView(snap(b))
     msgs, _ = check_probe(snap(b), ref, cs, case["measure"], tuple(case["alloc"]), case["threshold"],
                           case["fractional"], case["exact_palette"], case["executed"])
     return msgs
